@@ -66,8 +66,11 @@ Inv_Run == (Chosen /\ st.pc = "done") => Run(cfg) = st
 \* as built: success is reported exactly when nothing failed before the closes
 Inv_AsBuiltNil == (Chosen /\ st.pc = "done" /\ cfg.variant = "asbuilt") =>
                     (st.ret = "nil" <=> st.err = "none")
-\* once returned nothing changes; every call returns
-Act_Final == [][st.pc = "done" => UNCHANGED vars]_vars
+\* the first error is the one reported; a failed buffered writer stays failed; what is durable is never taken back
+Act_ErrSticky == [][(Chosen /\ st.err # "none") => st'.err = st.err]_vars
+Act_WerrSticky == [][(Chosen /\ st.werr) => st'.werr]_vars
+Act_FileGrows == [][(Chosen /\ st.file.kind = "new" /\ st'.file.kind = "new") => st'.file.len >= st.file.len]_vars
+\* every call returns
 Live_Returns == <>(st.pc = "done")
 
 \* ---- generation of scenarios -----------------------------------------------------
@@ -95,7 +98,7 @@ AllGroups == {
   G("q-random",      AllDoc, {}, {"Save"}, {"newdir", "existing", "device"}, "sweep", 60, 32, 8, 2),
   \* thorough tier
   G("t-sweep-all",   SmallDoc, {}, {"Save"}, Reg, "sweep", 0, 0, 1, 1),
-  G("t-sweep-large", LargeDoc, {}, {"Save"}, Reg, "sweep", 1500, 300, 2, 1),
+  G("t-sweep-large", LargeDoc, {}, {"Save"}, Reg, "sweep", 600, 256, 2, 1),
   G("t-targets",     AllDoc, {}, {"Save"}, Targets, "none", 0, 0, 2, 1),
   G("t-md-targets",  {}, AllMd, {"ConvertFile", "BatchConvert"}, Targets, "none", 0, 0, 2, 1),
   G("t-md-sweep",    {}, {"mdtable", "mdlong"}, {"ConvertFile", "BatchConvert"}, {"newdir"}, "sweep", 0, 0, 1, 1),
